@@ -14,7 +14,9 @@ def alphabet(rng, k=None, kind=None):
     list: 0-based, 1-based, gapped, negative, mixed-sign, large."""
     if k is None:
         k = rng.randint(2, 6)
-    kind = kind or rng.choice(['zero', 'zero', 'one', 'gapped', 'negative', 'mixed', 'large', 'minus1', 'imitate'])
+    kind = kind or rng.choice(['zero', 'zero', 'one', 'gapped', 'negative', 'mixed', 'large', 'minus1', 'imitate', 'wide'])
+    if kind == 'wide' and k < 2:
+        kind = 'gapped'
     if kind == 'imitate' and k < 2:
         kind = 'gapped'
     if kind == 'zero':
@@ -45,6 +47,10 @@ def alphabet(rng, k=None, kind=None):
             labs = list(range(k))
             labs[0] -= d
             labs[-1] += d
+    elif kind == 'wide':
+        # a spread beyond 2^16 (lookup tables indexed by label - minimum get big), small labels of both signs inside
+        far = rng.choice([1, 1, -1]) * rng.randint(66000, 200000)
+        labs = sorted(rng.sample(range(-9, 10), k - 1) + [far])
     elif kind == 'minus1':
         labs = sorted(set([-1] + rng.sample(range(-3, 2 * k + 2), k - 1)))
         while len(labs) < k:
@@ -87,6 +93,8 @@ def trajset(rng, labs=None, ntraj=None, lag=None, big=False, equal=False, minlen
     if equal:
         n = max(minlen, length(rng, lag, big))
         return [traj(rng, labs, n) for _ in range(ntraj)]
+    if ntraj >= 2 and minlen <= 1 and not equal and rng.random() < 0.04:
+        return [[rng.choice(labs)] for _ in range(ntraj)]          # every trajectory has exactly ONE frame
     if ntraj >= 3 and rng.random() < 0.15:
         # ragged, but the total equals ntraj times the FIRST length (looks 'equally long' to a test on the sum)
         n0 = max(minlen + 1, rng.randint(2, 12))
@@ -142,8 +150,13 @@ def narrow_set(rng, style=None):
         return trajs, [dt] * len(trajs), style
     if style == 'narrow-many':
         # ONE narrow type for all trajectories and enough contiguous states that i * n + j leaves the type
-        dt = rng.choice(['uint8', 'uint8', 'int8', 'int16'])
-        k = {'uint8': rng.randint(17, 60), 'int8': rng.randint(12, 40), 'int16': rng.randint(182, 200)}[dt]
+        dt = rng.choice(['uint8', 'uint8', 'int8', 'int16', 'int8neg'])
+        if dt == 'int8neg':
+            # int8 used from a negative base over more than 128 contiguous states (label - base leaves the type)
+            dt, base = 'int8', -rng.randint(60, 128)
+            k = rng.randint(129, min(200, 127 - base + 1))
+        else:
+            k = {'uint8': rng.randint(17, 60), 'int8': rng.randint(12, 40), 'int16': rng.randint(182, 200)}[dt]
         labs = list(range(base, base + k))
         order = labs[:]
         rng.shuffle(order)
@@ -167,6 +180,11 @@ def narrow_set(rng, style=None):
     t2 = order + traj(rng, labs, rng.randint(50, 150), sticky=0.2)
     t3 = traj(rng, low, rng.randint(1, 30), sticky=0.5)
     if style == 'many-mixed':
+        if rng.random() < 0.4:
+            # the only wide array sits at position 31, 32, 33 or 64 of a long list of narrow ones
+            lead = rng.choice([31, 32, 32, 33, 64])
+            shorts = [traj(rng, low, rng.randint(2, 9), sticky=0.5) for _ in range(lead)]
+            return shorts + [t2, t3], ['int8'] * lead + [rng.choice(['int16', 'int64']), 'int8'], style + '-pos%d' % lead
         return [t1, t2, t3], ['int8', rng.choice(['int16', 'int64']), 'int8'], style
     return [t1, t2, t3], ['int8', 'uint8', 'int8'], style
 
